@@ -122,6 +122,15 @@ CLAIMED["C10"] = dict(
     note="A1; A5 (strict convexity => unique minimiser); A6 incl. concolic path discovery (unreached paths uncovered); A7 sizes.",
     tech=IRSX + "concolic path discovery + exact rational-function normal form (inverse atoms)", ref="4 C10")
 
+CLAIMED["C11"] = dict(
+    text="cspline_eval_vs: value equals the product of the library's own exp/composition applied to B~_j(u) v_j (so, with C01/C02, the product of matrix "
+         "exponentials), vel is the body velocity (D M = M hat(vel)), acc and jer its successive u-derivatives, for symbolic u and control differences; "
+         "cspline_eval_dg_dvs: dg, dvel, dacc are the right-Jacobians w.r.t. every control difference (u fixed to sample values for non-commutative groups). "
+         "Bernstein and B-spline bases; (K,G) configurations sampled. cspline_eval_gs/dgs are not extracted (clang 14 cannot instantiate their range adaptor).",
+    note="A1; A2; A6; A7 configurations; R1/R2 rewrite rules; C20 ties the basis constants to their definitions; literal-rounding tolerance 1e-12 on coefficients "
+         "where the compiler folds products of decimal literals.",
+    tech=IRSX + "symbolic differentiation + exact normal form", ref="4 C11")
+
 NOT_YET = {}
 
 
